@@ -53,6 +53,7 @@ structure Live where
   prog : Array (List (List UInt8)) := Array.replicate 8 []      -- appended in this lifecycle, per thread, in order
   declared : Array (Option (List Tok)) := Array.replicate 8 none   -- producers declared for the next `run`
   nrec : Nat := 0
+  echo : Option Nat := none     -- `echo` script active: payload length of the sink's nested appends (pseudo-producer 8)
 
 structure TAcc where
   live : Option Live := none
@@ -78,7 +79,7 @@ def diagnose (prog : Nat → List (List UInt8)) (stream : List UInt8) : String :
     | fuel + 1 =>
       match s with
       | [] =>
-        let left := (List.range 8).filter fun p => !(Spec.dropEmpties (g p)).isEmpty
+        let left := (List.range 9).filter fun p => !(Spec.dropEmpties (g p)).isEmpty
         match left with
         | [] => "?"
         | p :: _ => s!"LOST: {(Spec.dropEmpties (g p)).length} append(s) of thread {p} never delivered (stream ended at offset {off})"
@@ -107,9 +108,15 @@ def judgeCleanup (a : TAcc) (lv : Live) : TAcc :=
   let a := expectLine a "P cleanup ok" "cleanup() did not return normally"
   if a.err.isSome then a else
   match a.tl with
-  | kl :: sl :: cl :: il :: rest =>
-    match words kl, words sl with
-    | ["K", ks], ["S", hx] =>
+  | kl :: sl :: cl :: il :: nl :: rest =>
+    match words kl, words sl, words nl with
+    | ["K", ks], ["S", hx], ["N", ns] =>
+      -- nested appends made by the sink callback (all completed before cleanup began): block ordinals, in order
+      let nested? : Option (List Nat) := if ns == "-" then some [] else (ns.splitOn ",").mapM (·.toNat?)
+      match nested? with
+      | none => { a with err := some s!"op#{a.nops} unparsable N line" }
+      | some nested =>
+      if nested.length > 0 && lv.echo.isNone then { a with err := some s!"op#{a.nops} N line reports nested appends but no echo script is active" } else
       let kv (w : String) (key : String) : Option Nat := if w.startsWith key then (w.drop key.length).toString.toNat? else none
       let (bp?, peak?) := match words il with
         | ["I", w1, w2] => (kv w1 "bp=", kv w2 "peak=")
@@ -128,7 +135,8 @@ def judgeCleanup (a : TAcc) (lv : Live) : TAcc :=
         let stream := arr.toList
         let a := { a with tl := rest }
         if cl != "P cb overlap=0" then { a with err := some s!"op#{a.nops} sink callbacks OVERLAPPED: [{cl}]" } else
-        let prog : Nat → List (List UInt8) := fun p => lv.prog.getD p []
+        let nestedRecs : List (List UInt8) := (List.range nested.length).map fun j => recordBytes 8 j (lv.echo.getD 0)
+        let prog : Nat → List (List UInt8) := fun p => if p == 8 then nestedRecs else lv.prog.getD p []
         -- (1) the property, decided by the abstract spec
         if !Spec.accept prog stream then
           { a with err := some s!"op#{a.nops} delivered stream is not an interleaving of the appends: {diagnose prog stream}" }
@@ -147,7 +155,7 @@ def judgeCleanup (a : TAcc) (lv : Live) : TAcc :=
             let bad := (List.zip lens ends).findIdx? (fun (n, e) => n == 0 || n > lv.cfg.size || (n != lv.cfg.size && !bnds.contains e))
             let k := bad.getD 0
             { a with err := some s!"M: op#{a.nops} block sequence is not a run of the model (blockRule, theorem C10_observable_accepted): block #{k} has {lens.getD k 0} bytes (buffer size {lv.cfg.size}) and ends at stream offset {ends.getD k 0}, which is not the end of an append — a partial block must end where an append ends" } else
-          let maxE := lv.nrec + 1
+          let maxE := lv.nrec + nested.length + 1
           let sch := schedule lv.cfg prog order (prefixSums lens) maxE
           match sch.err with
           | some e => { a with err := some s!"M: op#{a.nops} reconstruction failed on a run that satisfies the block rule (defect of the reconstruction, not shown of the implementation): {e}" }
@@ -170,6 +178,7 @@ def judgeCleanup (a : TAcc) (lv : Live) : TAcc :=
                 ++ (if exact then ["append=buffer"] else [])
                 ++ (if sch.blockedSeen then ["model-backpressure"] else [])
                 ++ (if realBp then ["real-backpressure"] else [])
+                ++ (if nested.length > 0 then ["nested-append"] else if lv.echo.isSome then ["echo-idle"] else [])
                 ++ (if lv.cfg.minN == lv.cfg.maxN then ["min=max"] else ["min<max"])
                 ++ (if lv.cfg.size == 1 then ["size=1"] else [])
                 ++ (if stream.isEmpty then ["empty-stream"] else [])
@@ -177,7 +186,7 @@ def judgeCleanup (a : TAcc) (lv : Live) : TAcc :=
               { a with tags := a.tags ++ tags, live := none, lifecycles := a.lifecycles + 1,
                        records := a.records + order.length, blocks := a.blocks + lens.length }
       | _, _ => { a with err := some s!"op#{a.nops} unparsable K/S lines" }
-    | _, _ => { a with err := some s!"op#{a.nops} expected K and S lines after cleanup, got [{kl.take 60}]" }
+    | _, _, _ => { a with err := some s!"op#{a.nops} expected K, S … N lines after cleanup, got [{kl.take 60}]" }
   | _ => { a with err := some s!"op#{a.nops} implementation output ends inside cleanup" }
 
 def inRange (w : String) (hi : Nat) : Option Nat :=
@@ -198,6 +207,15 @@ def stepOp (a : TAcc) (line : String) : TAcc :=
   | ["perturb", w1, w2, w3] =>
     match inRange w1 1000000000, inRange w2 5000, inRange w3 5000 with
     | some _, some _, some _ => expectLine a "P perturb" "perturb"
+    | _, _, _ => bad
+  | ["echo", w1, w2, w3] =>
+    -- the sink callback appends a record of w3 payload bytes (pseudo-producer 8) to the same pipe on every w2-th block
+    -- (`every`) / on every block shorter than a buffer, i.e. from a timed flush (`partial`); `never` switches it off
+    match inRange w2 1000, inRange w3 2000, a.live with
+    | some n, some len, some lv =>
+      if n < 1 || !(w1 == "every" || w1 == "partial" || w1 == "never") then bad
+      else if lv.echo.isSome then bad
+      else expectLine { a with live := some { lv with echo := if w1 == "never" then none else some len } } "P echo" "echo"
     | _, _, _ => bad
   | ["prod", w1, w2, w3] =>
     match inRange w1 7, inRange w2 5000, (w3.splitOn ",").mapM parseTok, a.live with
